@@ -32,6 +32,13 @@ CHECKS["C16"] = dict(
     note="Trusted: Coq kernel (no axioms), ExtrOcamlBasic + driver, Go harness and verif export files; btcec.ParsePubKey and address encoders are oracles; mass-core txscript/massutil restated in Gallina and tied by the same run. Three defects repaired (97fa21d, b6c522f, 7f827cd).",
     technique="Coq proof (tokenizer/template equivalence, round trip, panic characterisation) + extracted-model differential correspondence + consensus-library oracle",
 )
+CHECKS["C11"] = dict(
+    category="proof",
+    text="Coq model of db.go/ldb (ordered byte-key store, write transaction = op log + the code's own put/delete/seq summary, bucket path encoding, iterators, BytesPrefix) with 17 theorems over all op sequences and all byte strings: commit = whole log or nothing, read-your-writes for point/prefix reads, key encoding injective across buckets (isolation), prefix scans stay in their bucket, read-only iteration/seek exact and strictly ascending, BytesPrefix exact incl. 0xff prefixes; tied to the code by ~2000 random op sequences (148k ops) per quick run on a real LevelDB, replayed on the extracted model, plus a Go map as second oracle; failing sequences are shrunk.",
+    design_ref="DESIGN.md section 5, C11",
+    note="Trusted: Coq kernel (no axioms), ExtrOcamlBasic + driver, Go harness + its reference map; goleveldb Get/Write/iterator snapshots and durability are environment (exercised by reopen steps). Bucket-listing theorem is partial (index well-formedness invariant not proved); write-transaction iterators, Bucket() after DeleteBucket and NewBucket twice are modelled and diffed but outside the property text.",
+    technique="Coq proof (invariant by induction over operation logs, encoding injectivity, iteration exactness) + extracted-model differential correspondence on a real LevelDB + reference-map oracle",
+)
 NOT_YET = "not claimed yet in this round: model and correspondence under construction (see DESIGN.md section 9 for the order)"
 
 def main():
